@@ -451,9 +451,6 @@ func (m *Mon) C02(n *node.Node, l *node.Leg) {
 		// the exact move is judged by C01; here only the supply view: a transfer leg changes the
 		// total held on this shard by 0 (same shard), by -Σq (cross-shard sender leg) or by +Σq
 		// (delivery, refund, issuance by the system contract), per storage key
-		if l.Moves == nil || l.LogicalDst == nil {
-			return
-		}
 		net := map[string]*big.Int{}
 		for k, d := range deltas {
 			if net[k.Key] == nil {
@@ -464,6 +461,8 @@ func (m *Mon) C02(n *node.Node, l *node.Leg) {
 		want := map[string]*big.Int{}
 		sign := 0
 		switch {
+		case l.Moves == nil || l.LogicalDst == nil:
+			sign = 0 // no readable token list: nothing may change
 		case l.Msg != nil || isSys(c.Caller):
 			sign = 1
 		case world.ComputeShard(n.W.NumShards, l.LogicalDst) != l.Shard:
@@ -960,8 +959,8 @@ func (m *Mon) C07(n *node.Node, l *node.Leg) {
 		tok := string(a[0])
 		prev := m.S.Counter[rkey{string(c.Caller), tok}]
 		want := prev + 1
-		if len(l.Out.ReturnData) != 1 {
-			m.viol("C07", "create-return-shape", "ESDTNFTCreate did not return exactly one value (the nonce)", l)
+		if len(l.Out.ReturnData) < 1 {
+			m.viol("C07", "create-return-shape", "ESDTNFTCreate did not return the nonce", l)
 			return
 		}
 		got := u64(l.Out.ReturnData[0])
@@ -1074,10 +1073,6 @@ func (m *Mon) C08(n *node.Node, l *node.Leg) {
 		}
 		if t.Type != 1 {
 			m.viol("C08", "create-type-wrong", "created entry is not of non-fungible type", l)
-		}
-		// the create log's third topic is the stored entry
-		if len(l.Out.Logs) < 1 || len(l.Out.Logs[0].Topics) < 3 || !bytes.Equal(l.Out.Logs[0].Topics[2], n.W.AccountIfExists(c.Caller).Storage[key]) {
-			m.viol("C08", "create-log-topic", "the create log's third topic differs from the stored entry bytes", l)
 		}
 		m.R.Cover("C08/create")
 		m.R.DistinctS("C08", "create", fmt.Sprint(len(a[2]), len(a[4]), len(a[5]), len(a)-6, roy))
@@ -1297,6 +1292,60 @@ func argsEqual(a, b [][]byte) bool {
 	return true
 }
 
+// emittedArgsEqual compares the arguments of an emitted message with the expected ones. For the
+// continuation of a transfer the numeric fields (count, nonce, quantity) are compared by value and
+// NFT payloads by their decoded content, so that an equivalent encoding is not an alarm; attached
+// call arguments and every other message are compared byte-wise.
+func emittedArgsEqual(origin, fn string, got, want [][]byte) bool {
+	if len(got) != len(want) {
+		return false
+	}
+	if fn != origin || !node.IsTransferFunc(fn) {
+		return argsEqual(got, want)
+	}
+	num := func(a, b []byte) bool { return bigOf(a).Cmp(bigOf(b)) == 0 }
+	payload := func(a, b []byte) bool {
+		if bytes.Equal(a, b) {
+			return true
+		}
+		ta, ea := refcodec.DecodeToken(a)
+		tb, eb := refcodec.DecodeToken(b)
+		if ea != nil || eb != nil {
+			return false
+		}
+		return ta.Type == tb.Type && ta.Amount().Cmp(tb.Amount()) == 0 && ta.HasValue == tb.HasValue && bytes.Equal(ta.Properties, tb.Properties) &&
+			bytes.Equal(ta.Reserved, tb.Reserved) && refcodec.MetaEqual(ta.Meta, tb.Meta)
+	}
+	switch fn {
+	case FTransfer:
+		return len(got) >= 2 && bytes.Equal(got[0], want[0]) && num(got[1], want[1]) && argsEqual(got[2:], want[2:])
+	case FNFTXfer:
+		return len(got) >= 4 && bytes.Equal(got[0], want[0]) && num(got[1], want[1]) && num(got[2], want[2]) && payload(got[3], want[3]) && argsEqual(got[4:], want[4:])
+	case FMulti:
+		if len(got) < 1 || !num(got[0], want[0]) {
+			return false
+		}
+		k := int(u64(want[0]))
+		if len(got) < 1+3*k {
+			return false
+		}
+		for i := 0; i < k; i++ {
+			if !bytes.Equal(got[1+3*i], want[1+3*i]) || !num(got[2+3*i], want[2+3*i]) {
+				return false
+			}
+			if u64(want[2+3*i]) == 0 {
+				if !num(got[3+3*i], want[3+3*i]) {
+					return false
+				}
+			} else if !payload(got[3+3*i], want[3+3*i]) {
+				return false
+			}
+		}
+		return argsEqual(got[1+3*k:], want[1+3*k:])
+	}
+	return argsEqual(got, want)
+}
+
 func wireName(b []byte) bool { return len(b) > 0 && !bytes.Contains(b, []byte("@")) }
 
 // expectedMessages computes, from the call and the pre-state, the (function, args) of every
@@ -1452,7 +1501,7 @@ func (m *Mon) C10(n *node.Node, l *node.Leg) {
 						}
 					}
 				}
-				if !bytes.Equal(e.To, x.To) || e.Func != x.Func || !argsEqual(e.Args, x.Args) {
+				if !bytes.Equal(e.To, x.To) || e.Func != x.Func || !emittedArgsEqual(c.Func, e.Func, e.Args, x.Args) {
 					m.viol("C10", "emitted-data-wrong:"+c.Func+":"+sideName(l), fmt.Sprintf("emitted %q to %s, expected %q to %s", truncate(e.Data, 400), node.ShortAddr(e.To), truncate(node.BuildData(x.Func, x.Args), 400), node.ShortAddr(x.To)), l)
 				}
 				m.R.Cover("C10/emitted-checked:" + c.Func + ":" + sideName(l))
